@@ -256,3 +256,117 @@ func isParamOrRecv(f *Func, obj types.Object) bool {
 }
 
 var _ = token.NoPos
+
+// iifeDeferHelpers: a helper the rules have never seen that contains `defer` cannot be substituted statement by
+// statement (its deferred calls would run at the caller's end). It can be substituted as what it is: a function
+// literal invoked on the spot — `err := recoverDB(db)` becomes `err := func(db string) error { … }(db)`, the
+// form InitStorage has in the pinned tree. Parameters stay parameters, so no argument is evaluated twice and
+// nothing is renamed; only package-level names hidden by a local of the caller can break it, and then the
+// substituted program does not type-check and the step is abandoned.
+func (w *World) iifeDeferHelpers(overlay map[string][]byte) (map[string][]byte, []string) {
+	edits := map[string][]textEdit{}
+	var done []string
+	for _, name := range w.SortedFuncNames() {
+		h := w.Funcs[name]
+		if _, pinned := pinnedFuncs[h.Name]; pinned || w.aliased[h] || h.Decl.Body == nil {
+			continue
+		}
+		if w.helperObstacle(h) != "contains defer" {
+			continue
+		}
+		if w.bracketHelperOf(h) != nil {
+			continue
+		}
+		htf, hname := w.fileOf(h.Decl.Pos())
+		hsrc := readSource(hname, overlay)
+		htext := func(n ast.Node) string { return string(hsrc[htf.Offset(n.Pos()):htf.Offset(n.End())]) }
+		// call sites: all static calls, all in the helper's own package
+		var sites []*CallSite
+		ok := true
+		for _, cs := range w.CG().In[h] {
+			if cs.Caller.Pkg != h.Pkg || cs.Caller == h || cs.InGo {
+				ok = false
+			}
+			sites = append(sites, cs)
+		}
+		// the deferred calls of a goroutine body belong to the goroutine: `go h()` stays as it is
+		if !ok || len(sites) == 0 {
+			continue
+		}
+		// parameter list text (receiver first)
+		params := ""
+		if h.Decl.Recv != nil && len(h.Decl.Recv.List) == 1 {
+			fl := h.Decl.Recv.List[0]
+			nm := "_"
+			if len(fl.Names) == 1 {
+				nm = fl.Names[0].Name
+			}
+			params = nm + " " + htext(fl.Type)
+		}
+		if h.Decl.Type.Params != nil && len(h.Decl.Type.Params.List) > 0 {
+			p := htext(h.Decl.Type.Params)
+			p = strings.TrimSuffix(strings.TrimPrefix(p, "("), ")")
+			if params != "" && strings.TrimSpace(p) != "" {
+				params += ", "
+			}
+			params += p
+		}
+		results := ""
+		if h.Decl.Type.Results != nil {
+			results = " " + htext(h.Decl.Type.Results)
+		}
+		lit := "func(" + params + ")" + results + " " + htext(h.Decl.Body)
+		for _, cs := range sites {
+			f := cs.Caller
+			tf, fname := w.fileOf(f.Decl.Pos())
+			src := readSource(fname, overlay)
+			text := func(n ast.Node) string { return string(src[tf.Offset(n.Pos()):tf.Offset(n.End())]) }
+			var args []string
+			if h.Decl.Recv != nil {
+				sel, isSel := cs.Call.Fun.(*ast.SelectorExpr)
+				if !isSel {
+					ok = false
+					break
+				}
+				recv := text(sel.X)
+				// a value receiver called on an addressable pointer (or the reverse) keeps Go's implicit conversion
+				_, wantPtr := h.Obj.Type().(*types.Signature).Recv().Type().(*types.Pointer)
+				_, havePtr := f.TypeOf(sel.X).(*types.Pointer)
+				switch {
+				case wantPtr && !havePtr:
+					recv = "&" + recv
+				case !wantPtr && havePtr:
+					recv = "*" + recv
+				}
+				args = append(args, recv)
+			}
+			for _, a := range cs.Call.Args {
+				args = append(args, text(a))
+			}
+			tail := ")"
+			if cs.Call.Ellipsis.IsValid() {
+				tail = "...)"
+			}
+			edits[fname] = append(edits[fname], textEdit{tf.Offset(cs.Call.Pos()), tf.Offset(cs.Call.End()), lit + "(" + strings.Join(args, ", ") + tail})
+		}
+		if !ok {
+			continue
+		}
+		// the declaration goes (with its doc comment)
+		start := h.Decl.Pos()
+		if h.Decl.Doc != nil {
+			start = h.Decl.Doc.Pos()
+		}
+		edits[hname] = append(edits[hname], textEdit{htf.Offset(start), htf.Offset(h.Decl.End()), ""})
+		done = append(done, h.Name)
+		break // one helper per round: call sites of different helpers may nest
+	}
+	if len(done) == 0 {
+		return nil, nil
+	}
+	out := applyEdits(w, overlay, edits)
+	if out == nil {
+		return nil, nil
+	}
+	return out, done
+}
